@@ -382,7 +382,7 @@ func init() {
 			return ids >= 3 && edges >= 1
 		},
 		info: core.Info{
-			Rule: "A case is an identity graph of 1-30 identities over 1-5 modules and 0-3 submodules (diamonds, multiple bases, cross-module edges through import prefixes, equal names in different modules, identityref leaves and typedefs; optionally an undefined base or a derivation cycle of length 1-3) under 4-7 executions (load order x map order) and a batch / re-Process / incremental-load history. " +
+			Rule: "In a fifth of the cases one module is loaded in two revisions (same definitions) with some importers pinned to the older one by revision-date; the reference model then sees the latest revision only and the identities reported under a name are those of its latest revision. A case is an identity graph of 1-30 identities over 1-5 modules and 0-3 submodules (diamonds, multiple bases, cross-module edges through import prefixes, equal names in different modules, identityref leaves and typedefs; optionally an undefined base or a derivation cycle of length 1-3) under 4-7 executions (load order x map order) and a batch / re-Process / incremental-load history. " +
 				"Valid graph: every identity's value list equals the transitive closure of the base graph computed from the abstract scenario (each once, never itself), the sequence is identical in every execution and after re-Process / incremental load, and every identityref's base is one of the identity objects listed by the modules. Undefined base or cycle: errors in every execution, within the tick budget. Non-trivial: >= 3 identities and >= 1 base edge. Distinct = distinct case descriptions.",
 			Assumptions: []string{
 				"every generated submodule is included by its module (identities of a submodule nobody includes are deliberately not hoisted by the library)",
